@@ -492,6 +492,15 @@ func c05Run(c *core.Ctx, m *saml.EntityDescriptor, q c05Req) {
 		// with duplicate indices / locations / several isDefault flags the precedence names a set, not one endpoint: any
 		// member is a correct choice
 		wantSet, ok := c05SelectSet(md, q.acsURL.val, q.acsIndex.val)
+		// an index written " 1", "01" or "+1" is the number 1 to a reader that takes the attribute as xs:unsignedShort and
+		// no index at all to one that compares text: either reading is a correct implementation of "the requested index"
+		if t := strings.TrimLeft(strings.TrimSpace(q.acsIndex.val), "+"); t != "" && strings.Trim(t, "0123456789") == "" {
+			if n, err := strconv.Atoi(t); err == nil && n <= 65535 && strconv.Itoa(n) != q.acsIndex.val {
+				if alt, ok2 := c05SelectSet(md, q.acsURL.val, strconv.Itoa(n)); ok2 {
+					wantSet, ok = append(wantSet, alt...), true
+				}
+			}
+		}
 		inSet := false
 		for _, w := range wantSet {
 			inSet = inSet || w == got
